@@ -1075,6 +1075,198 @@ def gen_trim_det_config(rng, max_m):
 
 
 # ------------------------------------------------------------------------------------------------
+# superposed inputs at a non-zero precision (PM.C04.probsSvdGenθ: masked group amplitudes, `_merge_sv` threshold)
+# ------------------------------------------------------------------------------------------------
+def gen_trim_sup_config(rng, max_m):
+    prec = rng.choice(PRECS)
+    small = prec in ("default", 1e-6, 1e-4)
+    for _ in range(50):
+        cfg = gen_sim_config(rng, max_m, superposed=True)
+        if any("terms" in mb for mb in cfg["members"]):
+            break
+    cfg.pop("prev", None)
+    cfg["dets"] = None
+    m = cfg["m"]
+    if rng.random() < (0.8 if small else 0.5):
+        for mb in cfg["members"]:
+            mb["w"] *= rng.choice([1.0, 1.0, 1.0, 0.3, 1e-2, 1e-4, 1e-6, 3e-7, 1e-8])
+        tot = sum(mb["w"] for mb in cfg["members"])
+        for mb in cfg["members"]:
+            mb["w"] /= tot
+    if rng.random() < (0.6 if small else 0.3):
+        comps = []
+        for _ in range(rng.randint(1, 3)):
+            comps.append([rng.randint(0, m - 2), {"t": "W", "k": rng.choice([30, 100, 300, 1000, 3000])}])
+        if rng.random() < 0.5:
+            leaf = gens.gen_leaf(rng, m, kinds=("BS", "PERM"))
+            comps.insert(rng.randint(0, len(comps)), [rng.randint(0, m - gens.leaf_width(leaf)), leaf])
+        cfg["circ"] = {"m": m, "comps": comps}
+    cfg["prec"] = prec
+    cfg["trimsup"] = True
+    return cfg
+
+
+def crude_amplitude_bound(cfg, members, eff_filter, min_p):
+    """Lean-independent, UNPROVED test device for the failing-input verdict on the superposed path: every component
+    `_merge_sv` leaves out has |c·pa|^2 <= theta/(10 w), a key receives at most one component per term, hence
+    |l_K| <= T sqrt(theta/(10 w)) and the L1 change of the member is at most N_K T^2 theta/(10 w) + 2 T sqrt(theta N_K/(10 w));
+    members at or below theta are dropped whole"""
+    H = sum(v for _, v in cfg["heralds"])
+    prec = DEFAULT_PREC if cfg["prec"] == "default" else cfg["prec"]
+
+    def n_of(mb):
+        return sum(map(sum, mb["terms"][0]["groups"]))
+
+    passing = [mb for mb in members if n_of(mb) >= eff_filter + H]
+    theta = max(min_p, max([float(Fraction(mb["w"])) for mb in passing] + [0.0]) * prec)
+    B = 0.0
+    for mb in passing:
+        w = float(Fraction(mb["w"]))
+        if w <= theta * (1 + 1e-9):
+            B += w
+        if w > theta * (1 - 1e-9):
+            T = len(mb["terms"])
+            nk = 1
+            for g in mb["terms"][0]["groups"]:
+                nk *= n_outputs(cfg["m"], sum(g))
+            B += min(w, nk * T * T * theta / 10 + 2 * T * math.sqrt(w * theta * nk / 10))
+    return min(1.0, B), theta
+
+
+def judge_trim_sup(chk, cfg):
+    """-> None or (kind, signature, what)"""
+    try:
+        real = chk.real.call("run_real", cfg)
+    except Crash as e:
+        return crash_verdict(cfg, e, "Simulator.probs_svd")
+    if "err" in real:
+        return ("violation", "raises-" + real["err"],
+                f"Simulator.probs_svd (precision {cfg['prec']}, superposed input) raised {real['err']}: {real['msg']}")
+    eff = effective_filter(cfg)
+    prec = DEFAULT_PREC if cfg["prec"] == "default" else cfg["prec"]
+    req = lean_request(cfg, real, eff)
+    if req["op"] != "c04gen":
+        return ("broken", "trim-sup-generator", "no superposed member in a superposed trimming configuration")
+    req = dict(req, op="c04gentrim", prec=core.rat(prec), minp=core.rat(real["min_p"]))
+    rep = chk.lean.ask(req)
+    if "err" in rep:
+        return ("broken", "lean-rejects", f"driver rejected the request: {rep['err']}")
+    obs = real["obs"]
+
+    def out_of(j):
+        return {"results": dist_of_json(j["results"]), "phys": Fraction(j["phys"]), "logical": Fraction(j["logical"])}
+
+    spec, trimmed, zero, exact = (out_of(rep[k]) for k in ("spec", "trimmed", "zero", "model"))
+    retained = float(Fraction(rep["spec"]["retained"]))
+    ret_trim = float(Fraction(rep["retainedTrimmed"]))
+    err_ret, err_tot = float(Fraction(rep["errRet"])), float(Fraction(rep["errTot"]))
+    e_res = {k: float(v) for k, v in dist_of_json(rep["errResults"]).items()}
+    gap = float(Fraction(rep["gap"]))
+    chk.last_retained = ret_trim
+    chk.branch("trim-sup-case")
+    if cfg["prec"] == "default":
+        chk.branch("trim-sup-default-precision")
+    if rep["droppedMembers"] > 0:
+        chk.branch("trim-sup-member-dropped")
+    if rep["droppedComps"] > 0:
+        chk.branch("trim-sup-component-dropped")
+        if cfg["heralds"] and ret_trim > TINY:
+            chk.branch("trim-sup-component-dropped-under-mask-retained")
+        if cfg["prec"] == "default":
+            chk.branch("trim-sup-component-dropped-at-default-precision")
+    changed = abs(float(trimmed["logical"]) - float(spec["logical"])) > 1e-8 or any(
+        abs(float(trimmed["results"].get(k, 0)) - float(spec["results"].get(k, 0))) > 1e-8
+        for k in set(trimmed["results"]) | set(spec["results"]))
+    if changed and ret_trim > TINY:
+        chk.branch("trim-sup-changes-the-answer")
+    chk.count("trim_sup_precision", str(cfg["prec"]))
+    # the threshold-0 instance of the thresholded model must be the exact masked model (PM.C04.probsSvdGen, which is
+    # proved equal to the specification): validated here case by case, exactly
+    zr, er = float(Fraction(rep["retainedZero"])), retained
+    zbad = compare({"results": {k: float(v) for k, v in zero["results"].items()} if zr > TINY else {},
+                    "phys": float(zero["phys"]), "logical": float(zero["logical"]), "global": None},
+                   dict(exact, results=exact["results"] if er > TINY else {}))
+    if zbad:
+        return ("broken", "trim-sup-threshold-0-vs-exact-model",
+                f"the thresholded model at threshold 0 differs from the exact masked model: {zbad[0]}")
+    tie = gap < 1e-6
+    if tie:
+        chk.branch("trim-threshold-tie")
+    if float(Fraction(rep["minAmp2"])) < 1e-10:
+        # the native StateVector drops components of modulus <= min_complex_component = 1e-6 whatever the precision
+        # (not modelled): a case whose model holds a non-zero amplitude below 1e-5 is compared on physical_perf only
+        chk.branch("trim-sup-native-amplitude-cutoff")
+        tie = True
+    else:
+        chk.branch("trim-sup-compared")
+        if rep["droppedComps"] > 0:
+            chk.branch("trim-sup-compared-component-dropped")
+            if cfg["prec"] == "default":
+                chk.branch("trim-sup-compared-component-dropped-at-default-precision")
+            if cfg["heralds"] and ret_trim > TINY:
+                chk.branch("trim-sup-compared-component-dropped-under-mask-retained")
+        if changed and ret_trim > TINY:
+            chk.branch("trim-sup-compared-changes-the-answer")
+    phys = float(spec["phys"])
+    bad = []
+    if not core.close(obs["phys"], phys, TOL):
+        bad.append(("physical_perf", f"returned {obs['phys']!r} at precision {cfg['prec']}, exact {phys!r} "
+                                     f"(trimming must not change it)"))
+    # within the distance the model's error distribution gives (per-member bound merge_threshold_bound_superposed;
+    # its propagation through the mixture and the conditioning is evaluated, not proved)
+    if not tie and not bad and phys > TINY:
+        if abs(obs["logical"] - float(spec["logical"])) > err_ret / phys + TOL:
+            bad.append(("logical_perf", f"returned {obs['logical']!r}, exact {float(spec['logical'])!r}, distance "
+                                        f"allowed by the model's error distribution {err_ret / phys!r}"))
+    if not tie and not bad and ret_trim > TINY:
+        for k in set(obs["results"]) | set(spec["results"]):
+            x, xh = obs["results"].get(k, 0.0), float(spec["results"].get(k, 0))
+            eps = (e_res.get(k, 0.0) + xh * err_ret) / ret_trim
+            if abs(x - xh) > eps + TOL + 1e-9 * xh:
+                bad.append(("results", f"state {list(k)}: returned {x!r}, exact {xh!r}, allowed distance {eps!r}"))
+                break
+    mbad = []
+    if not tie and not bad:
+        tm, o2 = dict(trimmed), dict(obs)
+        if ret_trim <= TINY:
+            tm["results"], o2 = {}, dict(obs, results={})
+        if 0 < phys <= TINY:
+            tm["logical"], o2 = Fraction(0), dict(o2, logical=0.0, **{"global": None})
+        mbad = compare(o2, tm)
+    if not bad and not mbad:
+        return None
+    try:
+        d = chk.real.call("direct_oracle", cfg, eff)
+    except Exception as e:  # noqa: BLE001
+        return ("broken", "direct-oracle-crash", f"{type(e).__name__}: {e}")
+    B, theta = crude_amplitude_bound(cfg, req["members"], eff, real["min_p"])
+    what = None
+    Rd = d["phys"] * d["logical"]
+    if not core.close(obs["phys"], d["phys"], TOL):
+        what = ("physical_perf", f"returned {obs['phys']!r}, directly computed {d['phys']!r}")
+    elif d["phys"] > TINY and abs(obs["logical"] - d["logical"]) > B / d["phys"] + TOL:
+        what = ("logical_perf", f"returned {obs['logical']!r}, directly computed {d['logical']!r}, crude bound of the "
+                                f"change {B!r}")
+    elif Rd > TINY and Rd - B > TINY:
+        for k in set(obs["results"]) | set(d["results"]):
+            x, xh = obs["results"].get(k, 0.0), d["results"].get(k, 0.0)
+            if abs(x - xh) > 2 * B / (Rd - B) + TOL:
+                what = ("results", f"state {list(k)}: returned {x!r}, directly computed {xh!r}, crude bound of the "
+                                   f"change {B!r}")
+                break
+    if what is not None:
+        return ("violation", "trim-sup-" + what[0],
+                f"{what[0]} of a superposed input at precision {cfg['prec']} (threshold {theta!r}) is further from the "
+                f"conditioned unconditioned distribution than the amplitude threshold allows (heralds "
+                f"{cfg['heralds']}, filter {cfg['filter']}, post-selection {cfg['ps']}): {what[1]}")
+    first = (bad or mbad)[0]
+    return ("broken", ("trim-sup-bound:" if bad else "trim-sup-model-vs-code:") + first[0],
+            (f"outside the distance given by the model's error distribution: {first[1]}" if bad else
+             f"thresholded model (masked amplitudes, _merge_sv threshold as coded) and implementation differ: {first[1]}")
+            + f" [precision {cfg['prec']}, threshold {rep['theta']}, gap {gap!r}]")
+
+
+# ------------------------------------------------------------------------------------------------
 # sessions: one long-lived Simulator / Processor, selection changed between queries
 # (PM.C04.simStep / procStep; theorems simulator_selection_history_independent,
 #  processor_selection_history_independent)
@@ -1498,6 +1690,8 @@ def crash_verdict(cfg, e, where):
 
 def judge(chk, cfg):
     """-> None or (kind, signature, what)"""
+    if cfg.get("trimsup"):
+        return judge_trim_sup(chk, cfg)
     if cfg.get("trim"):
         return judge_trim(chk, cfg)
     entry = "Processor.probs" if cfg["kind"] == "proc" else "Simulator.probs_svd"
@@ -1974,6 +2168,12 @@ REQUIRED = ["mask-path", "no-heralds", "herald-in-the-middle", "adjacent-heralds
             "trim-det-tensor-pruned", "trim-det-stage-bites", "trim-det-stage-bites-at-default-precision",
             "trim-det-all-threshold", "trim-det-physical-perf-changes", "trim-det-bites-with-retained-mass",
             "trim-det-changes-the-answer", "trim-det-changes-the-answer-at-default-precision",
+            # superposed inputs at a non-zero precision (amplitude threshold of _merge_sv under the mask)
+            "trim-sup-case", "trim-sup-default-precision", "trim-sup-member-dropped", "trim-sup-component-dropped",
+            "trim-sup-component-dropped-under-mask-retained", "trim-sup-component-dropped-at-default-precision",
+            "trim-sup-changes-the-answer", "trim-sup-compared", "trim-sup-compared-component-dropped",
+            "trim-sup-compared-component-dropped-at-default-precision",
+            "trim-sup-compared-component-dropped-under-mask-retained", "trim-sup-compared-changes-the-answer",
             # sessions on one object
             "session-sim", "session-proc", "session-later-query-retains", "session-mask-mode-switched-off",
             "session-other-heralds-under-mask", "session-vacuum-after-masked-query", "session-postselection-cleared",
@@ -2040,6 +2240,8 @@ def run(chk: core.Check):
             handle(chk, gen_session_config(rng, max_m))
         for _ in range(chk.pick(160, 1200) if on("trimdet") else 0):
             handle(chk, gen_trim_det_config(rng, max_m))
+        for _ in range(chk.pick(110, 900) if on("trimsup") else 0):
+            handle(chk, gen_trim_sup_config(rng, 4))
         if on("malformed"):
             malformed(chk, rng, chk.pick(30, 300))
         chk.extra["real_code_worker_crashes"] = chk.real.crashes
